@@ -98,7 +98,8 @@ func newTemplate(set *TemplateSet, name string, isTplString bool, tpl []byte) (*
 	return t, nil
 }
 
-func (tpl *Template) newContextForExecution(context Context) (*Template, *ExecutionContext, error) {
+// applyOptions applies TrimBlocks/LStripBlocks to the template's tokens.
+func (tpl *Template) applyOptions() {
 	if tpl.Options.TrimBlocks || tpl.Options.LStripBlocks {
 		// Issue #94 https://github.com/flosch/pongo2/issues/94
 		// If an application configures pongo2 template to trim_blocks,
@@ -130,6 +131,16 @@ func (tpl *Template) newContextForExecution(context Context) (*Template, *Execut
 				prev = t
 			}
 		})
+	}
+}
+
+func (tpl *Template) newContextForExecution(context Context) (*Template, *ExecutionContext, error) {
+	// The options are applied to this template and to all templates it extends:
+	// their documents are rendered as well. (Applying them to a parent only when
+	// it happens to be executed directly, e. g. by ExecuteBlocks, made a later
+	// execution of the child render differently.)
+	for t := tpl; t != nil; t = t.parent {
+		t.applyOptions()
 	}
 
 	// Determine the parent to be executed (for template inheritance)
